@@ -143,3 +143,62 @@ Theorem C09_glue_signatures :
 Proof. repeat split; reflexivity. Qed.
 Print Assumptions C09_glue_signatures.
 Close Scope string_scope.
+
+(* ==================================================================================================== *)
+(** CONSTRUCTORS regenerated by tools/translate_ext_ctors.py (Gen/CtorsGlue.v); leaves and the meaning of `super().__init__`:
+    Model/GlueLeaves_Ctors.v.  [rfa_construct cls actuals] = cls(actuals): (the object's attributes "self.attr" |-> value, most recently
+    assigned first; how the constructor ended);  [new_then_rfa pw gpow sf cls actuals] = cls(actuals).rfa();
+    [st_call loadtxt m actuals] = Weaver.m(actuals) for a static constructor m ([loadtxt]: what np.loadtxt reads). *)
+From Coq Require Import Lia Bool.
+From TW Require Import Model.GlueLeaves_Ctors Gen.CtorsGlue Gen.WeaverGlue Proofs.GlueCtorsWeaverProofs.
+Open Scope Qc_scope.
+Open Scope string_scope.
+
+(** from_2d_array on an array of ANY shape is the model's from_2d on its first two columns *)
+Theorem C09_glue_from_2d_array_model : forall loadtxt shape data,
+  st_call loadtxt "from_2d_array" [("xy", nd shape data)] =
+  obj_outcome (from_2d (length shape) (nth 1 shape 0%nat)
+                 (nd_column (nth 0 shape 0%nat) (nth 1 shape 0%nat) 0 data)
+                 (nd_column (nth 0 shape 0%nat) (nth 1 shape 0%nat) 1 data)).
+Proof. exact glue_from_2d_array_model. Qed.
+Print Assumptions C09_glue_from_2d_array_model.
+
+(** shape (N, 2): the model's init on the two columns, which succeeds *)
+Theorem C09_glue_from_2d_array : forall loadtxt r data,
+  let cx := nd_column r 2 0 data in
+  let cy := nd_column r 2 1 data in
+  st_call loadtxt "from_2d_array" [("xy", nd [r; 2]%nat data)] = obj_outcome (init (Some cx) cy) /\
+  init (Some cx) cy = Ok {| wx := cx; wy := cy; wox := cx; woy := cy; wrx := cx; wry := cy |}.
+Proof. exact glue_from_2d_array. Qed.
+Print Assumptions C09_glue_from_2d_array.
+
+(** from_csv = from_2d_array of what np.loadtxt(file_name, delimiter=',', dtype=np.float64) returns; its failure propagates *)
+Theorem C09_glue_from_csv : forall loadtxt f shape data, loadtxt f = Ok (nd shape data) ->
+  st_call loadtxt "from_csv" [("file_name", f)] = st_call loadtxt "from_2d_array" [("xy", nd shape data)].
+Proof. exact glue_from_csv. Qed.
+Print Assumptions C09_glue_from_csv.
+
+Theorem C09_glue_from_csv_any_value : forall loadtxt f,
+  st_call loadtxt "from_csv" [("file_name", f)] =
+  match loadtxt f with Ok v => ret_norm (from_2d_run loadtxt static_methf0 v) | Raise e => ORaise e end.
+Proof. exact glue_from_csv_gen. Qed.
+Print Assumptions C09_glue_from_csv_any_value.
+
+Theorem C09_glue_from_csv_unreadable : forall loadtxt f e, loadtxt f = Raise e -> st_call loadtxt "from_csv" [("file_name", f)] = ORaise e.
+Proof. exact glue_from_csv_unreadable. Qed.
+Print Assumptions C09_glue_from_csv_unreadable.
+
+(** from_dataframe = init on the two selected columns (a missing key: KeyError, which the model's exn does not name) *)
+Theorem C09_glue_from_dataframe : forall loadtxt cols kx ky,
+  st_call loadtxt "from_dataframe" [("df", df_val cols); ("x_col", key_val kx); ("y_col", key_val ky)] =
+  match df_col cols kx, df_col cols ky with
+  | Some cx, Some cy => obj_outcome (init (Some cx) cy)
+  | _, _ => ORaise OtherExn
+  end.
+Proof. exact glue_from_dataframe. Qed.
+Print Assumptions C09_glue_from_dataframe.
+
+Theorem C09_glue_from_dataframe_defaults : forall loadtxt v,
+  st_call loadtxt "from_dataframe" [("df", v)] = st_call loadtxt "from_dataframe" [("df", v); ("x_col", VInt 0); ("y_col", VInt 1)].
+Proof. exact glue_from_dataframe_defaults. Qed.
+Print Assumptions C09_glue_from_dataframe_defaults.
